@@ -273,12 +273,65 @@ func buildEntries(s *Shared, rng *mrand.Rand) map[string][2][]byte {
 		"certTrailingDER":  {Leaf(0, 0, ts, 0, ref.Vec(append(append([]byte{}, x.Entry.Cert...), 0, 0), 3), nil), xExtra},
 		"chainNotDER":      {xLeaf, ref.CertChain(junk, x.DER[len(x.DER)-1])},
 	}
+	derDimension(m, s, junk, ts)
 	m["extraOfOtherTypePrecert"] = [2][]byte{pLeaf, xExtra}
 	m["leafTrailingPrecert"] = [2][]byte{append(append([]byte{}, pLeaf...), 0xff), pExtra}
 	m["extraTrailingPrecert"] = [2][]byte{pLeaf, append(append([]byte{}, pExtra...), 0xff)}
 	m["leafTruncatedPrecert"] = [2][]byte{cut(pLeaf), pExtra}
 	m["extraTruncatedPrecert"] = [2][]byte{pLeaf, cut(pExtra)}
 	return m
+}
+
+// nonMinimalSerial re-encodes the serial number INTEGER 0x7a5b of a certificate / TBSCertificate as 00 5b: same
+// length, so no other length octet changes, but no longer DER (X.690 8.3.2) - parsers accept it only when lenient.
+func nonMinimalSerial(der []byte) []byte {
+	marker := []byte{0xa0, 0x03, 0x02, 0x01, 0x02, 0x02, 0x02, 0x7a, 0x5b} // [0] EXPLICIT v3, INTEGER 0x7a5b
+	at := bytes.Index(der, marker)
+	if at < 0 || at > 12 {
+		panic("pki: version/serial marker not found at the start of the TBSCertificate")
+	}
+	c := append([]byte{}, der...)
+	c[at+7] = 0x00
+	return c
+}
+
+// derDimension renders the classes <where>_<parse>_<trailing> of LogClient.tla (DERWhere x DERParse x DERTrailing).
+func derDimension(m map[string][2][]byte, s *Shared, junk []byte, ts uint64) {
+	x, p := s.Chains["x509"], s.Chains["precert"]
+	const serial = 0x7a5b
+	leafS := s.Inter.Issue(pki.Opts{CN: "dim leaf", DNS: []string{"dim.example"}, Serial: serial})
+	preS := s.Inter.Issue(pki.Opts{CN: "dim pre", Poison: "ok", DNS: []string{"dimpre.example"}, Serial: serial})
+	caS := s.Root.Issue(pki.Opts{CN: "dim ca", IsCA: true, Serial: serial})
+	preEntry := must(ref.EntryForChain(pki.DERs(preS.Chain(true)), false))
+	obj := map[string]map[string][]byte{
+		"x509Cert":         {"strict": leafS.DER, "laxOnly": nonMinimalSerial(leafS.DER), "fatal": junk},
+		"precertTBS":       {"strict": preEntry.TBS, "laxOnly": nonMinimalSerial(preEntry.TBS), "fatal": junk},
+		"submittedPrecert": {"strict": preS.DER, "laxOnly": nonMinimalSerial(preS.DER), "fatal": junk},
+		"chainElem":        {"strict": caS.DER, "laxOnly": nonMinimalSerial(caS.DER), "fatal": junk},
+	}
+	rootDER := x.DER[len(x.DER)-1]
+	for where, byParse := range obj {
+		for parse, der := range byParse {
+			for _, trailing := range []string{"none", "some"} {
+				o := append([]byte{}, der...)
+				if trailing == "some" {
+					o = append(o, 0xde, 0xad, 0xbe) // inside the vector, after the end of the object
+				}
+				var e [2][]byte
+				switch where {
+				case "x509Cert":
+					e = [2][]byte{Leaf(0, 0, ts, 0, ref.Vec(o, 3), nil), ref.CertChain(x.DER[1:]...)}
+				case "precertTBS":
+					e = [2][]byte{Leaf(0, 0, ts, 1, ref.Cat(preEntry.IssuerKeyHash, ref.Vec(o, 3)), nil), ref.PrecertChainEntry(preS.DER, p.DER[1:]...)}
+				case "submittedPrecert":
+					e = [2][]byte{ref.MerkleTreeLeaf(ts, preEntry, nil), ref.PrecertChainEntry(o, p.DER[1:]...)}
+				case "chainElem":
+					e = [2][]byte{ref.MerkleTreeLeaf(ts, x.Entry, nil), ref.CertChain(o, rootDER)}
+				}
+				m[where+"_"+parse+"_"+trailing] = e
+			}
+		}
+	}
 }
 
 // ---------------------------------------------------------------- rendering
